@@ -223,7 +223,7 @@ def first_clause(g: dict, r: dict) -> str | None:
     return None
 
 
-def judge(case: dict, variant: int, src: str, greal, preal, perr, fixed=()) -> list:
+def judge(case: dict, variant: int, src: str, greal, preal, perr, fixed=(), load: int = 1) -> list:
     """Compare real Griffe (greal: list of class records or an exception), real CPython and the two spec results.
     Returns events: ("die", msg) | ("viol", sig, what) | ("drift", what) | ("ok",)"""
     ev = []
@@ -239,7 +239,7 @@ def judge(case: dict, variant: int, src: str, greal, preal, perr, fixed=()) -> l
     elif perr is None:
         return [("die", f"spec says CPython raises TypeError, it accepted the program\n{src}")]
     # -- Griffe must at least load the program
-    base = {"tags": tags, "variant": variant, "wf": case["wf"]}
+    base = {"tags": tags, "variant": variant, "wf": case["wf"], "load": load}
     if isinstance(greal, BaseException):
         return [("viol", dict(base, clause="total", explained=False), f"static loading raised {greal!r} on\n{src}")]
     if not case["wf"]:
@@ -283,13 +283,34 @@ def _clear_cache():
         pass
 
 
-def load_batch(griffe, directory: str, modname: str, header: str, sources: list[str]):
+def load_history(griffe, directory: str, modname: str, header: str, sources: list[str], nloads: int = 1, style: int = 0) -> list:
+    """Write the module and load it `nloads` times the way Dataclass.tla's LoadAgain says: the extension instances of
+    the first load live on.  Load 1: griffe.load (nloads = 1) or a GriffeLoader; later loads alternate between
+    `loader.load(...)` once more on the same loader and a new GriffeLoader built with `extensions=first.extensions`
+    (style picks which comes first).  Returns the module object of every load (each load builds a new tree)."""
     with open(os.path.join(directory, modname + ".py"), "w") as fh:
         fh.write(header + "\n" + "\n".join(sources))
     try:
-        return griffe.load(modname, search_paths=[directory], allow_inspection=False)
+        if nloads == 1:
+            return [griffe.load(modname, search_paths=[directory], allow_inspection=False)]
+        first = griffe.GriffeLoader(search_paths=[directory], allow_inspection=False)
+        mods = [first.load(modname)]
+        for n in range(2, nloads + 1):
+            if (n + style) % 2 == 0:
+                mods.append(first.load(modname))
+            else:
+                other = griffe.GriffeLoader(extensions=first.extensions, search_paths=[directory], allow_inspection=False)
+                mods.append(other.load(modname))
+        return mods
     finally:
         _clear_cache()
+
+
+def case_at_load(case: dict, n: int) -> dict:
+    """The spec's expectation for the tree after load n of the history (earlier loads are in case["hist"])."""
+    if n >= case.get("loads", 1):
+        return case
+    return dict(case, impl=case["hist"][n - 1]["impl"], mem=case["hist"][n - 1]["mem"])
 
 
 def replay_chunk(job) -> dict:
@@ -301,34 +322,39 @@ def replay_chunk(job) -> dict:
     griffe = ensure_repo()
     cid, directory, items, fixed = job
     events = []
-    by_variant: dict = {}
+    groups: dict = {}
     for idx, (case, variant) in enumerate(items):
-        by_variant.setdefault(variant, []).append((idx, case))
+        groups.setdefault((variant, case.get("loads", 1)), []).append((idx, case))
     samples = []
-    for variant, group in by_variant.items():
+    for (variant, nloads), group in groups.items():
         header = HEADERS[variant]
         srcs = {idx: render_chain(case["chain"], variant, f"K{idx}") for idx, case in group}
-        modname = f"c18_{cid}_{variant}"
-        gmod = None
+        modname = f"c18_{cid}_{variant}_{nloads}"
+        style = (cid if isinstance(cid, int) else 0) % 2
         try:
-            gmod = load_batch(griffe, directory, modname, header, [srcs[idx] for idx, _ in group])
+            gmods = load_history(griffe, directory, modname, header, [srcs[idx] for idx, _ in group], nloads, style)
         except Exception:  # noqa: BLE001  one program broke the loader: find it by loading one by one
-            gmod = None
+            gmods = None
         for idx, case in group:
             names = class_names(f"K{idx}", len(case["chain"]))
             src = srcs[idx]
             outer = outer_name(f"K{idx}", variant)
             preal, perr = exec_chain(header + "\n" + src, f"c18x_{cid}_{variant}_{idx}", names, outer)
             try:
-                mod = gmod if gmod is not None else load_batch(griffe, directory, f"c18s_{cid}_{variant}_{idx}", header, [src])
-                scope = mod.members[outer] if outer else mod
-                greal = [project_griffe(scope.members[n]) for n in names]
+                mods = gmods if gmods is not None else load_history(griffe, directory, f"c18s_{cid}_{variant}_{idx}", header, [src], nloads, style)
             except Exception as exc:  # noqa: BLE001
-                greal = exc
-            evs = judge(case, variant, src, greal, preal, perr, fixed)
-            for e in evs:
-                if e[0] != "ok":
-                    events.append(({"chain": case["chain"], "variant": variant}, *e))
+                mods = [exc] * nloads
+            for n, mod in enumerate(mods, 1):
+                try:
+                    if isinstance(mod, BaseException):
+                        raise mod
+                    scope = mod.members[outer] if outer else mod
+                    greal = [project_griffe(scope.members[x]) for x in names]
+                except Exception as exc:  # noqa: BLE001
+                    greal = exc
+                for e in judge(case_at_load(case, n), variant, src, greal, preal, perr, fixed, n):
+                    if e[0] != "ok":
+                        events.append(({"chain": case["chain"], "variant": variant, "loads": nloads, "style": style}, *e))
             if len(samples) < 2 and case["wf"] and len(case["chain"]) > 1 and not isinstance(greal, BaseException):
-                samples.append({"chain": case["chain"], "variant": variant, "source": src, "griffe": [strip(g) for g in greal]})
+                samples.append({"chain": case["chain"], "variant": variant, "loads": nloads, "source": src, "griffe": [strip(g) for g in greal]})
     return {"cid": cid, "n": len(items), "events": events, "samples": samples}
